@@ -57,6 +57,10 @@ type tScenario struct {
 	cancelNth   int
 	cancelDelay time.Duration
 	observe     time.Duration
+	// Upper bound on how long stopAndWatch waits for the running services to return after the cancellation
+	// (0 = the scenario deadline).  Only set where every exit latency and back-off of the scenario is shorter by orders
+	// of magnitude, so that a service still running after it will evidently never stop.
+	stopWait time.Duration
 }
 
 type tEvent struct {
@@ -440,18 +444,25 @@ func (r *tRun) stopAndWatch(cancel func(), deadline, watch time.Duration) {
 	r.mu.Unlock()
 	t0 := time.Now()
 	// "cancelling the supervisor's context stops every service": everything running now must return
+	if sw := r.sc.stopWait; sw > 0 && sw < deadline {
+		deadline = sw
+	}
 	dl := time.Now().Add(deadline)
 	for r.liveCount() > 0 && time.Now().Before(dl) {
 		time.Sleep(time.Millisecond)
 	}
 	if n := r.liveCount(); n > 0 {
-		r.log("stopped", nil, fmt.Sprintf("ok=0 live=%d", n))
+		r.log("stopped", nil, fmt.Sprintf("ok=0 live=%d waited_us=%d", n, time.Since(t0).Microseconds()))
 	} else {
-		r.log("stopped", nil, "ok=1 live=0")
+		r.log("stopped", nil, fmt.Sprintf("ok=1 live=0 waited_us=%d", time.Since(t0).Microseconds()))
 	}
-	// "... without further restarts": after a quiet period nothing may start any more.  (Every scenario has a root
-	// that only leaves on its context: once it has left, the processor has run processKill and returned, so the
-	// quiet period only has to cover a goroutine that processSchedule had already started but that has not logged yet.)
+	// "... without further restarts": after a quiet period nothing may start any more.  (Where the root only leaves on
+	// its context, the processor has run processKill and returned once it has left, so the quiet period only has to
+	// cover a goroutine that processSchedule had already started but that has not logged yet.  Where the root has
+	// completed - Done, returned nil - nothing may be running at the moment of the cancellation although schedule
+	// requests are in flight: the processor may still take some of them before it takes ctx.Done, within the same
+	// quiet period; what they start is cancelled by processKill and must have returned when the trace ends - the
+	// driver's `service-live-after-stop` looks at the log up to `fin`, not at this flag.)
 	time.Sleep(60 * time.Millisecond)
 	r.log("quiesced", nil, "")
 	if rest := watch - time.Since(t0); rest > 60*time.Millisecond {
@@ -496,7 +507,16 @@ func (r *tRun) write(w *bufio.Writer, cid string) {
 	if r.sc.deflt {
 		init, max = int64(500*time.Millisecond), int64(60*time.Second)
 	}
-	fmt.Fprintf(w, "tr %s name=%s init=%d max=%d\n", cid, r.sc.name, init, max)
+	// lat: the longest scripted exit latency (time a service keeps running after it saw its context cancelled)
+	var lat time.Duration
+	for _, l := range r.sc.scripts {
+		for _, s := range l {
+			if s.linger > lat {
+				lat = s.linger
+			}
+		}
+	}
+	fmt.Fprintf(w, "tr %s name=%s init=%d max=%d lat=%d\n", cid, r.sc.name, init, max, int64(lat))
 	for i, e := range r.events {
 		b := e.body
 		if b != "" {
@@ -798,6 +818,183 @@ func windowScenarios(r *rand.Rand, n int) []*tScenario {
 	return out
 }
 
+// completedScenarios: trees in which the ROOT runnable and/or inner nodes are set-up-only runnables - they start their
+// groups, signal Healthy and Done and return nil ("a service that signalled completion") - while the services below
+// them keep running under the completed node's still-live context.  "Cancelling the supervisor's context stops every
+// service" includes those: the supervisor context is cancelled after the tree has settled, a PRNG-chosen few
+// milliseconds after the completed node returned (children starting / just started), while a child of the completed
+// node sits in its restart back-off, and while the subtree of a failed child is still exiting.  A completed node is
+// always alone in its group and never fails: were its context cancelled from outside (a group sibling failing), the
+// services below it could never be restarted (their parent context is dead for good, the DONE node is left alone) -
+// nothing C18 speaks about.
+func completedScenarios(r *rand.Rand, n int) []*tScenario {
+	ms := time.Millisecond
+	between := func(lo, hi int) time.Duration { return time.Duration(lo+r.Intn(hi-lo+1)) * ms }
+	pick := func(l ...string) string { return l[r.Intn(len(l))] }
+	completes := func(groups ...[]string) []tScript {
+		return []tScript{{groups: groups, healthy: true, done: true, fail: "nil", after: between(0, 2)}}
+	}
+	runs := func(groups ...[]string) []tScript { return []tScript{{groups: groups, healthy: true}} }
+	leaf := func() []tScript {
+		s := tScript{healthy: true, ctxHow: pick("own", "own", "wctx")}
+		if r.Intn(2) == 0 {
+			s.linger = between(1, 12)
+		}
+		return []tScript{s}
+	}
+	failsOnce := func() []tScript {
+		return []tScript{{healthy: r.Intn(3) != 0, fail: pick("other", "nil", "panic", "wsubctx"), after: between(1, 4)}, stableLeaf()}
+	}
+	const nKinds = 9
+	var out []*tScenario
+	for i := 0; i < n; i++ {
+		// every exit latency here is <= 40 ms and every back-off <= 450 ms: what still runs 4 s after the cancellation never stops
+		sc := &tScenario{stopWait: 4 * time.Second}
+		inWindow := func(after string, nth int, delay time.Duration, wide bool) {
+			sc.cancelAfter, sc.cancelNth, sc.cancelDelay, sc.observe = after, nth, delay, 300*ms
+			if wide {
+				sc.init, sc.max, sc.observe = 200*ms, 400*ms, 650*ms
+			}
+		}
+		switch i % nKinds {
+		case 0:
+			// the documented pattern: the root only sets things up; a group of two, and a long-running parent with a leaf
+			sc.name = "completed-root-stop-settled"
+			sc.scripts = map[string][]tScript{
+				"root": completes([]string{"a", "b"}, []string{"p"}), "root.a": leaf(), "root.b": leaf(),
+				"root.p": runs([]string{"l"}), "root.p.l": leaf(),
+			}
+		case 1:
+			// completed nodes at depth 0, 1 and 2; running services at depth 1, 2 and 3
+			sc.name = "completed-root-and-inner-stop-settled"
+			sc.scripts = map[string][]tScript{
+				"root": completes([]string{"p"}, []string{"s"}), "root.s": leaf(),
+				"root.p": completes([]string{"x"}, []string{"y"}), "root.p.y": leaf(),
+				"root.p.x": completes([]string{"k", "l"}), "root.p.x.k": leaf(), "root.p.x.l": leaf(),
+			}
+		case 2:
+			// cancelled right after the root returned: its children are being scheduled, starting, or have just started
+			sc.name = "completed-root-stop-early"
+			sc.scripts = map[string][]tScript{
+				"root": completes([]string{"a", "b"}, []string{"p"}), "root.a": leaf(), "root.b": leaf(),
+				"root.p": runs([]string{"l"}), "root.p.l": leaf(),
+			}
+			inWindow("root", 1, time.Duration(r.Intn(12000))*time.Microsecond, false)
+		case 3:
+			// a child of the completed root has failed and sits in its back-off (100..300 ms); its sibling keeps running
+			sc.name = "completed-root-stop-child-in-backoff"
+			sc.scripts = map[string][]tScript{
+				"root": completes([]string{"a"}, []string{"b"}), "root.a": failsOnce(), "root.b": leaf(),
+			}
+			inWindow("root.a", 1, between(5, 90), true)
+		case 4:
+			// a child of the completed root has failed, its own subtree is still exiting (then it is reset and sleeps)
+			sc.name = "completed-root-stop-subtree-exiting"
+			sc.scripts = map[string][]tScript{
+				"root":       completes([]string{"p"}, []string{"s"}),
+				"root.s":     leaf(),
+				"root.p":     {{groups: [][]string{{"x", "y"}}, healthy: true, fail: pick("other", "nil", "panic"), after: 4 * ms}, {groups: [][]string{{"x", "y"}}, healthy: true}},
+				"root.p.x":   {{healthy: true, linger: between(5, 40)}},
+				"root.p.y":   {{groups: [][]string{{"l"}}, healthy: true, done: r.Intn(2) == 0, linger: between(1, 15)}},
+				"root.p.y.l": {{healthy: true, linger: between(1, 10)}},
+			}
+			inWindow("root.p", 1, between(2, 95), true)
+		case 5:
+			// the root runs until cancelled; an inner node completes, cancelled right after it returned
+			sc.name = "completed-inner-stop-early"
+			sc.scripts = map[string][]tScript{
+				"root": runs([]string{"p"}, []string{"s"}), "root.s": leaf(),
+				"root.p": completes([]string{"x", "y"}), "root.p.x": leaf(),
+				"root.p.y": completes([]string{"l"}), "root.p.y.l": leaf(),
+			}
+			inWindow("root.p", 1, time.Duration(r.Intn(10000))*time.Microsecond, false)
+		case 6:
+			// services below the completed root fail and are restarted under its context (alone and as a group) before the stop
+			sc.name = "completed-root-restarts-then-stop"
+			sc.scripts = map[string][]tScript{
+				"root": completes([]string{"a", "b"}, []string{"c"}), "root.a": failsOnce(),
+				"root.b": {{healthy: true, ctxHow: pick("own", "wctx"), linger: between(0, 6)}},
+				"root.c": {{healthy: true, fail: "other", after: between(2, 6)}, {fail: pick("nil", "panic"), after: ms}, stableLeaf()},
+			}
+		case 7:
+			// every inner node has completed: one running service, at depth 3
+			sc.name = "completed-chain-stop-settled"
+			sc.scripts = map[string][]tScript{
+				"root": completes([]string{"p"}), "root.p": completes([]string{"q"}), "root.p.q": completes([]string{"l"}),
+				"root.p.q.l": {{healthy: true, done: r.Intn(2) == 0, linger: between(0, 30), ctxHow: "own"}},
+			}
+			if r.Intn(2) == 0 {
+				inWindow("root.p.q", 1, time.Duration(r.Intn(8000))*time.Microsecond, false)
+				sc.name = "completed-chain-stop-early"
+			}
+		case 8:
+			sc = completedRandom(r, i)
+		}
+		if sc.init == 0 {
+			sc.init, sc.max = tInit, tMax
+		}
+		out = append(out, sc)
+	}
+	return out
+}
+
+// completedRandom: a PRNG-shaped tree (depth <= 3) whose root completes; inner nodes complete or run, leaves run, fail
+// once or complete; cancelled after settling, or a PRNG-chosen moment after the root or a completed inner node returned.
+func completedRandom(r *rand.Rand, idx int) *tScenario {
+	ms := time.Millisecond
+	sc := &tScenario{name: fmt.Sprintf("completed-rand%d", idx), scripts: map[string][]tScript{}, stopWait: 4 * time.Second}
+	budget := 7
+	var completed []string
+	var mk func(dn string, depth int, mayComplete bool)
+	mk = func(dn string, depth int, mayComplete bool) {
+		var groups [][]string
+		if depth < 3 && budget > 0 && (depth == 0 || r.Intn(3) != 0) {
+			names := []string{"a", "b", "c", "d"}
+			r.Shuffle(len(names), func(i, j int) { names[i], names[j] = names[j], names[i] })
+			pos := 0
+			for g := 0; g < 1+r.Intn(2) && pos < len(names) && budget > 0; g++ {
+				var grp []string
+				for k := 0; k < 1+r.Intn(2) && pos < len(names) && budget > 0; k++ {
+					grp = append(grp, names[pos])
+					pos++
+					budget--
+				}
+				sort.Strings(grp)
+				groups = append(groups, grp)
+			}
+		}
+		switch {
+		case len(groups) > 0 && mayComplete && (depth == 0 || r.Intn(2) == 0):
+			sc.scripts[dn] = []tScript{{groups: groups, healthy: true, done: true, fail: "nil", after: time.Duration(r.Intn(3)) * ms}}
+			completed = append(completed, dn)
+		case len(groups) > 0:
+			sc.scripts[dn] = []tScript{{groups: groups, healthy: true, ctxHow: []string{"own", "wctx"}[r.Intn(2)]}}
+		default:
+			last := tScript{healthy: true, ctxHow: []string{"own", "own", "wctx"}[r.Intn(3)], linger: time.Duration(r.Intn(3)*r.Intn(8)) * ms}
+			if r.Intn(5) == 0 {
+				last.done, last.ctxHow = true, []string{"own", "nil"}[r.Intn(2)]
+			}
+			var l []tScript
+			if r.Intn(3) == 0 {
+				l = append(l, tScript{healthy: r.Intn(2) == 0, fail: []string{"other", "nil", "panic", "subctx"}[r.Intn(4)], after: time.Duration(r.Intn(5)) * ms})
+			}
+			sc.scripts[dn] = append(l, last)
+		}
+		for _, g := range groups {
+			for _, nm := range g {
+				// a completed node must be alone in its group (see completedScenarios)
+				mk(dn+"."+nm, depth+1, len(g) == 1)
+			}
+		}
+	}
+	mk("root", 0, true)
+	if r.Intn(2) == 0 {
+		sc.cancelAfter, sc.cancelNth = completed[r.Intn(len(completed))], 1
+		sc.cancelDelay, sc.observe = time.Duration(r.Intn(15000))*time.Microsecond, 300*ms
+	}
+	return sc
+}
+
 func TestVerifSupervisorTrace(t *testing.T) {
 	out := os.Getenv("VERIF_OUT")
 	if out == "" {
@@ -830,6 +1027,12 @@ func TestVerifSupervisorTrace(t *testing.T) {
 		nWindow = 54
 	}
 	scs = append(scs, windowScenarios(rnd, nWindow)...)
+	// completed (Done, returned nil) root / inner nodes with running services below them, cancelled at various moments
+	nCompleted := 18
+	if os.Getenv("VERIF_TIER") == "thorough" {
+		nCompleted = 108
+	}
+	scs = append(scs, completedScenarios(rnd, nCompleted)...)
 	f, err := os.Create(filepath.Join(out, "supervisor_trace.cases"))
 	if err != nil {
 		t.Fatal(err)
